@@ -115,6 +115,8 @@ structure LoopWindow (src : List Event) (p q L : Nat) : Prop where
   per : normL ((src.drop q).take L) =
     normL ((List.replicate (L / (q - p)) ((src.drop p).take (q - p))).flatten ++
       ((src.drop p).take (q - p)).take (L % (q - p)))
+  /-- the first erased event is not a loop bracket or break -/
+  plain : ∃ e, src[q]? = some e ∧ e.type ≠ ev_LOOP_START ∧ e.type ≠ ev_LOOP_END ∧ e.type ≠ ev_LOOP_BREAK
 
 theorem loop_window {src : List Event} {p q L len0 : Nat} (hpq : p < q) (hL : 0 < L)
     (hf : FMLSpec src src p q len0 L)
@@ -235,7 +237,7 @@ theorem loop_window {src : List Event} {p q L len0 : Nat} (hpq : p < q) (hL : 0 
   subst hn
   subst hA
   subst hB
-  exact ⟨hlen, hAs, h0, h1, hper⟩
+  exact ⟨hlen, hAs, h0, h1, hper, eq, heq, hplain⟩
 
 /-- the conditions under which `find_match` records a loop candidate `(loopPosition, loopLength)`
 for the phrase starting at `position`: it lies later in the same track, `find_match_length` of the
